@@ -1,0 +1,129 @@
+package macaroon
+
+import (
+	"errors"
+
+	msgpack "github.com/vmihailenco/msgpack/v5"
+)
+
+// maxDecodeDepth is the deepest nesting of msgpack arrays and maps accepted in
+// untrusted input. The msgpack decoder (and our own caveat decoding) recurses
+// once per nesting level, so without a bound the goroutine stack grows with the
+// input (~0.5 KB per byte) up to the unrecoverable "stack overflow". Genuine
+// tokens nest a handful of levels (two per IfPresent).
+const maxDecodeDepth = 200
+
+var errTooDeep = errors.New("msgpack nesting too deep")
+
+// unmarshal is msgpack.Unmarshal behind the nesting check.
+func unmarshal(buf []byte, v interface{}) error {
+	if err := checkDepth(buf, maxDecodeDepth); err != nil {
+		return err
+	}
+	return msgpack.Unmarshal(buf, v)
+}
+
+// checkDepth walks the first msgpack value of buf without recursion and
+// rejects it if arrays/maps nest deeper than max. It reports nothing else:
+// truncated or malformed input is left for the decoder to complain about.
+func checkDepth(buf []byte, max int) error {
+	// open[i] = values still to read in the i-th open container
+	open := make([]uint64, 0, 16)
+	pos := 0
+	for {
+		if pos >= len(buf) {
+			return nil
+		}
+		c := buf[pos]
+		pos++
+
+		var skip, items uint64
+		container := false
+		be := func(n int) (uint64, bool) {
+			if len(buf)-pos < n {
+				return 0, false
+			}
+			var v uint64
+			for _, b := range buf[pos : pos+n] {
+				v = v<<8 | uint64(b)
+			}
+			pos += n
+			return v, true
+		}
+
+		ok := true
+		switch {
+		case c <= 0x7f, c >= 0xe0, c == 0xc0, c == 0xc2, c == 0xc3:
+		case c >= 0xa0 && c <= 0xbf:
+			skip = uint64(c & 0x1f)
+		case c >= 0x90 && c <= 0x9f:
+			container, items = true, uint64(c&0x0f)
+		case c >= 0x80 && c <= 0x8f:
+			container, items = true, 2*uint64(c&0x0f)
+		case c == 0xc4, c == 0xd9:
+			skip, ok = be(1)
+		case c == 0xc5, c == 0xda:
+			skip, ok = be(2)
+		case c == 0xc6, c == 0xdb:
+			skip, ok = be(4)
+		case c == 0xc7:
+			skip, ok = be(1)
+			skip++
+		case c == 0xc8:
+			skip, ok = be(2)
+			skip++
+		case c == 0xc9:
+			skip, ok = be(4)
+			skip++
+		case c == 0xca, c == 0xce, c == 0xd2:
+			skip = 4
+		case c == 0xcb, c == 0xcf, c == 0xd3:
+			skip = 8
+		case c == 0xcc, c == 0xd0:
+			skip = 1
+		case c == 0xcd, c == 0xd1:
+			skip = 2
+		case c >= 0xd4 && c <= 0xd8:
+			skip = 1 + uint64(1)<<(c-0xd4)
+		case c == 0xdc:
+			container = true
+			items, ok = be(2)
+		case c == 0xdd:
+			container = true
+			items, ok = be(4)
+		case c == 0xde:
+			container = true
+			items, ok = be(2)
+			items *= 2
+		case c == 0xdf:
+			container = true
+			items, ok = be(4)
+			items *= 2
+		default: // 0xc1
+			return nil
+		}
+		if !ok || skip > uint64(len(buf)-pos) {
+			return nil
+		}
+		pos += int(skip)
+
+		if container {
+			if len(open) >= max {
+				return errTooDeep
+			}
+			open = append(open, items)
+		} else if len(open) == 0 {
+			return nil
+		} else {
+			open[len(open)-1]--
+		}
+		// close finished containers; a closed container is one value of its parent
+		for len(open) > 0 && open[len(open)-1] == 0 {
+			open = open[:len(open)-1]
+			if len(open) == 0 {
+				return nil
+			}
+			open[len(open)-1]--
+		}
+	}
+}
